@@ -320,6 +320,62 @@ pub fn check_raw(c: &Case) -> CheckResult {
         );
     }
 
+    // A later stream on the same producer: the finished/cancelled stream's id must
+    // stay dead (next -> error) and a late cancel for it must not disturb the new one.
+    if !failing {
+        let r = open_h
+            .handle(&req(ROUTE_OPEN, 500, beve::to_vec(&OpenRequest { resource: "res".into() }).unwrap()))
+            .map_err(|e| Fail::new("open-handler-error", e.to_string()))?;
+        ensure!(!is_error(&r), "open-failed", "second open failed");
+        let open2: OpenResponse = r.beve_body().map_err(|e| Fail::new("open-response-decode", e.to_string()))?;
+        let r = next_h
+            .handle(&req(ROUTE_NEXT, 501, next_body.clone()))
+            .map_err(|e| Fail::new("next-handler-error", e.to_string()))?;
+        ensure!(
+            is_error(&r),
+            "stale-id-revived",
+            "after a later open (id {}), next on the finished/released stream id {} returned a chunk of {} bytes",
+            open2.stream_id,
+            open.stream_id,
+            r.body.len()
+        );
+        let _ = cancel_h.handle(&req(
+            ROUTE_CANCEL,
+            502,
+            beve::to_vec(&CancelRequest { stream_id: open.stream_id, reason: "late".into() }).unwrap(),
+        ));
+        let nb2 = beve::to_vec(&NextRequest { stream_id: open2.stream_id }).unwrap();
+        let mut got2: Vec<u8> = Vec::new();
+        let mut n2 = 0usize;
+        loop {
+            n2 += 1;
+            let r = next_h
+                .handle(&req(ROUTE_NEXT, 510 + n2 as u64, nb2.clone()))
+                .map_err(|e| Fail::new("next-handler-error", e.to_string()))?;
+            ensure!(
+                !is_error(&r),
+                "late-cancel-kills-new-stream",
+                "the second stream (id {}) failed after a late cancel of the first (id {}): {}",
+                open2.stream_id,
+                open.stream_id,
+                String::from_utf8_lossy(&r.body)
+            );
+            got2.extend_from_slice(&r.body);
+            if r.query.first() == Some(&1) {
+                break;
+            }
+            ensure!(n2 < 4 * (l.len() / c.chunk.max(1) + 64), "stream-does-not-end", "second stream does not end");
+        }
+        let content2 = if c.zstd {
+            zstd::stream::decode_all(&got2[..]).map_err(|e| Fail::new("zstd-decode", format!("second stream: {e}")))?
+        } else {
+            got2
+        };
+        if !matches!(c.kind, Kind::Value) {
+            ensure!(content2 == l, "second-stream-bytes-differ", "the second stream's bytes differ from the producer's");
+        }
+    }
+
     let delivered: Vec<u8> = chunks.concat();
     let nchunks = chunks.len();
     if cancelled {
